@@ -90,7 +90,7 @@ Proof.
   rewrite firstn_app, <- Hlm, firstn_all, Nat.sub_diag. cbn [firstn]. rewrite app_nil_r.
   rewrite skipn_app, skipn_all, Nat.sub_diag. cbn [skipn app].
   unfold open_detached. destruct (Nat.ltb_spec (length mbuf) (length c)) as [|_]; [lia|].
-  rewrite (skipn_all2 mbuf) by lia. rewrite app_nil_r, Hrt. reflexivity.
+  rewrite Hrt. rewrite (skipn_all2 mbuf) by lia. rewrite app_nil_r. reflexivity.
 Qed.
 
 Lemma open_easy_inplace_roundtrip m n k :
@@ -152,8 +152,19 @@ Lemma failed_open_detached mbuf mac c n k :
   snd (open_detached stream ota mbuf mac c n k) = zeros (length c) ++ skipn (length c) mbuf.
 Proof.
   unfold open_detached. destruct (Nat.ltb_spec (length mbuf) (length c)); cbn [fst snd]; [discriminate|].
-  destruct (open_detached_inplace stream ota (c ++ skipn (length c) mbuf) mac n k) as [[[]| |] b]; cbn [fst snd];
+  destruct (open_detached_inplace stream ota c mac n k) as [[[]| |] b]; cbn [fst snd];
     try discriminate; reflexivity.
+Qed.
+
+(* the verdict of open_detached depends on the authenticator, the ciphertext, the nonce and the key only -- not on what
+   the caller's buffer holds (in particular not on bytes of a buffer longer than the ciphertext) *)
+Lemma open_detached_verdict mbuf mac c n k : (length c <= length mbuf)%nat ->
+  (fst (open_detached stream ota mbuf mac c n k) = Ok tt <-> mac = ota (firstn 32 (stream k n (32 + length c))) c).
+Proof.
+  intros Hl. unfold open_detached. destruct (Nat.ltb_spec (length mbuf) (length c)) as [|_]; [lia|].
+  unfold open_detached_inplace. destruct (bytes_eqb mac _) eqn:E; cbn [fst].
+  - apply bytes_eqb_eq in E. tauto.
+  - split; [discriminate|]. intros H. apply bytes_eqb_eq in H. congruence.
 Qed.
 
 Lemma failed_open_easy mbuf c n k :
@@ -293,6 +304,9 @@ Lemma sb_failed_open_detached mbuf mac c n k :
   fst (open_detached_c mbuf mac c n k) = Err ->
   snd (open_detached_c mbuf mac c n k) = zeros (length c) ++ skipn (length c) mbuf.
 Proof. revert mbuf mac c n k. inst_sb failed_open_detached. Qed.
+Lemma sb_open_detached_verdict mbuf mac c n k : (length c <= length mbuf)%nat ->
+  (fst (open_detached_c mbuf mac c n k) = Ok tt <-> mac = Poly1305Impl.mac (firstn 32 (xsalsa20 k n (32 + length c))) c).
+Proof. revert mbuf mac c n k. inst_sb open_detached_verdict. Qed.
 Lemma sb_failed_open_easy mbuf c n k :
   fst (open_easy_c mbuf c n k) = Err ->
   snd (open_easy_c mbuf c n k) = mbuf \/
